@@ -1,7 +1,7 @@
 """C08 – the journal survives a process crash at any point.  DESIGN.md §6 C08.
 
 tie:    a real file-backed Journaler in a CHILD process; a proxy around the sqlite3 connection / cursor
-        counts execute() / commit() calls and calls os._exit() before the (k+1)-th or right after the k-th;
+        counts execute() / commit() / rollback() calls and calls os._exit() before the (k+1)-th or right after the k-th;
         the parent reopens the file with a fresh Journaler and reads counters (both load paths) and all
         rows; compared with the Lean model's `reopen (session ops k)` (driver: jrn.start k … jrn.restart -).
         Every crash point of every sequence, plus normal close (del journaler) and normal process exit.
@@ -23,7 +23,6 @@ from . import common as C
 
 PROP = "C08"
 PROPS_MODULES = ["AsyncFix.Props.C08"]
-FINDINGS_MODULE = "AsyncFix.Findings.C08"
 ASSUMPTIONS = [
     "SQLite commits atomically and process death (os._exit) leaves exactly the last commit (rollback journal); "
     "this is the definition of Conn.crash / Conn.commit in the model",
@@ -31,7 +30,8 @@ ASSUMPTIONS = [
 ] + c13.ASSUMPTIONS
 MODELLED_NOT_VERIFIED = c13.MODELLED_NOT_VERIFIED
 I63 = 2**63
-# known finding C08-set-seq-num-overflow-half-applied: frames b"\x0134=1\x01" / b"\x0134=7\x01"
+# witness of the former finding C08-set-seq-num-overflow-half-applied (fixed by 493a9a7), kept as a standing
+# regression case of the oracle: frames b"\x0134=1\x01" / b"\x0134=7\x01"
 WITNESS = [["col", "T", "S"], ["persist", 0, 1, (b"\x0134=1\x01").hex(), 1], ["set", 0, 1, I63],
            ["persist", 0, 0, (b"\x0134=7\x01").hex(), 7]]
 
@@ -85,6 +85,13 @@ class ConnProxy:
         self._k.before()
         try:
             return self._c.commit()
+        finally:
+            self._k.after()
+
+    def rollback(self):
+        self._k.before()
+        try:
+            return self._c.rollback()
         finally:
             self._k.after()
 
@@ -307,7 +314,8 @@ def load_corpus():
 
 
 def is_half(line):
-    """does this `jrn.set K O I a b` line lie in the excluded class (UPDATE binds, an effective next number = 2^63)?"""
+    """is this `jrn.set K O I a b` line in the class of the former finding (UPDATE binds, an effective next
+    number = 2^63 makes a DELETE raise)?  Failures of such sequences get their own signature."""
     t = line.split(" ")
     if t[0] != "jrn.set":
         return False
